@@ -115,3 +115,24 @@ SPECS["C02"] = dict(
              params=dict(quick=dict(bodylen=2, faults=1), thorough=dict(bodylen=3, faults=2)), witnesses=["killed", "acknowledged", "done"]),
     ],
 )
+
+SPECS["C04"] = dict(
+    level="model_checking",
+    outside="more than two concurrent operations; NFS-style non-atomic flock; the HTTP layer; clock advancing inside one operation (time.Now is fixed per step); TTL and trash lifetime from {0, 1 s, 2 weeks} x {0, 1 s, 1 day}",
+    assumptions=["filesystem model (atomic calls, flock per open file description, blocking)", "instants within [2^28, 2^33) seconds; Time.Sub/Add closed forms (no int64 saturation)",
+                 "one inductive step per obligation from an arbitrary stored timestamp: Trash removes only blocks at least TTL old + Touch/PUT sets the timestamp to now => no removal before t+TTL"],
+    runs=[
+        dict(name="trash", pkg="services/keepstore", harness=["keepstore/c04_trash.go", "keepstore/util.go"], entry="GosymH_C04_trash", replay="engine",
+             witnesses=["deleted", "kept", "trashed-and-restored"]),
+        dict(name="touch", pkg="services/keepstore", harness=["keepstore/c04_trash.go", "keepstore/util.go"], entry="GosymH_C04_touch", replay="engine",
+             witnesses=["touched", "touch-refused"]),
+        dict(name="trashitem", pkg="services/keepstore", harness=["keepstore/c04_trash.go", "keepstore/util.go"], entry="GosymH_C04_trashitem", replay="engine",
+             witnesses=["trashed", "kept"]),
+        dict(name="emptytrash", pkg="services/keepstore", harness=["keepstore/c04_trash.go", "keepstore/util.go"], entry="GosymH_C04_emptytrash", replay="engine",
+             witnesses=["expired-trash-deleted", "unexpired-trash-kept"]),
+        dict(name="race", pkg="services/keepstore", harness=["keepstore/c04_trash.go", "keepstore/util.go"], entry="GosymH_C04_race", replay="engine", sched="all",
+             params=dict(quick=dict(put=0)), witnesses=["touch-won", "trash-won", "done"]),
+        dict(name="race-put", tier="thorough", pkg="services/keepstore", harness=["keepstore/c04_trash.go", "keepstore/util.go"], entry="GosymH_C04_race", replay="engine", sched="all",
+             params=dict(quick=dict(put=1)), witnesses=["touch-won", "done"]),
+    ],
+)
